@@ -19,7 +19,7 @@ for name, rs in rows:
         else: cells.append(f"{pid}: inconclusive (exit {rc})")
     out.append(f"| `{name}` | " + "; ".join(cells) + " |")
 out.append("")
-out.append("### (b) Changes written by sub-agents (80: round 1 = -A/-B, round 2 = -C/-D; four per property)\n")
+out.append("### (b) Changes written by sub-agents (120: round 1 = -A/-B, round 2 = -C/-D, round 3 = -E/-F; six per property)\n")
 out.append("| id | change (site) | needs to manifest | caught by quick checks | run but silent |")
 out.append("|---|---|---|---|---|")
 for d in sorted(glob.glob('/verif/seeded/C*-*')):
@@ -28,7 +28,7 @@ for d in sorted(glob.glob('/verif/seeded/C*-*')):
     first=''
     if m.get('own_check_missed_it_at_first'):
         fr=m['first_run_before_strengthening'].get(m['breaks_property'],{}).get('rc')
-        first=f" (own check at first: {'silent' if fr==0 else 'inconclusive'})"
+        first=f" (own check at first: {'silent' if fr==0 else 'inconclusive' if fr==2 else 'strengthened before the first run'})"
     out.append(f"| {m['id']} | {m['change']} | {m['needs_to_manifest']} | {', '.join(m['caught_by_quick_checks']) or '-'}{inc}{first} | {', '.join(m['silent']) or '-'} |")
 out.append("<!-- TABLES:END -->")
 p='/verif/DESIGN.md'; s=open(p).read()
